@@ -101,14 +101,20 @@ PROPS["C18"] = _lockstep("C18", "stream commands (explicit/partial/auto IDs unde
 
 PROPS["C04"] = dict(
     engine="e1", level="exploration",
+    phases=[dict(engine="e1", test="TestWorker", share=0.8),
+            dict(engine="e1", race=True, test="TestRaceSweep", share=0.2, race_only=r"runtime\.map|internal/runtime/maps")],
     rule="one evaluation = one seeded run: an attacker connection sends 4-13 adversarial (command, argv) vectors (every registered "
          "command name in any letter case, arity 0-6, adversarial alphabet, option keywords, one key of each type, missing key, "
          "repeated key); the run index walks the (command x arity) grid so every cell is visited; after each input the same key, "
          "other keys and other connections are probed; oracle = process alive, all probes answered, no deadlock, no leaked lock, "
-         "every reply RESP, blocking pops answer by their timeout; distinct = distinct trace hash",
+         "every reply RESP, blocking pops answer by their timeout; distinct = distinct trace hash.  Second phase (race sweep, "
+         "-race build, real threads): 2-4 attacker connections fire adversarial commands at the same typed key at once; "
+         "oracle = no runtime abort, and no race-detector report on a Go map (the race behind 'fatal error: concurrent map "
+         "writes'); a single step that never completes within 90 s of real time is reported as a hang",
     state_measure="hash of the canonical final keyspace dump",
     components=REAL_E1,
     assumptions=["an executor panic counts as a process death (no recover exists on any server path)",
+                 "in the race-sweep phase only data races on Go maps count for C04 (they abort the process); other races are C05's",
                  "blocking-pop timeouts are kept small so that 'never answers' is decidable"],
     quick=dict(wall=35), thorough=dict(wall=600),
 )
